@@ -1,5 +1,5 @@
 """C07 -- a violation always surfaces as the contract's error with the true condition text (DESIGN.md 5/C07)."""
-from . import rec, msg, effects, c09
+from . import rec, msg, effects, c09, gates, loops
 
 META = {
     "explanation": "laziness tables of the re-evaluator's and/or, comparison-chain and conditional-expression handlers (control dependence of every later operand visit on the value of the earlier one); exhaustiveness of the supported forms; decision table of the message assembly; provenance of the condition text; structure of the decorator-delimiting regular expressions; error discipline of the message-generation handler",
@@ -28,6 +28,9 @@ def run(run, model):
     run.do(msg.scan_bounds, model)
     run.do(msg.bare_at_prefix, model)
     run.do(rec.lookup, model, "C07.lookup")
+    # the error found is the error raised: the wrappers test the returned error for presence and raise it
+    run.do(gates.c01_gate, model, "C07.error-raised")
+    run.do(gates.c02_gate, model, "C07.error-raised")
     run.do(effects.handlers_rule, model, "C07.no-swallow")
     from . import fwd
     run.do(fwd.forwarding, model, "C07.forwarded", ("condition", "description", "location", "error"))
@@ -35,7 +38,6 @@ def run(run, model):
     run.do(rec.all_trace, model, "C07.all-trace")
     run.do(rec.trace_only_unhappy, model)
     # the message (or the user's error factory) is built from the arguments of the call the contract was evaluated with
-    from . import gates, loops
     for role, ck in gates.checkers(model).items():
         for kind, depth in (("PRE", 2), ("POST", 1)):
             h = loops.helper_of(model, ck, kind)
